@@ -51,8 +51,10 @@ package keyvalue
 
 //@ interface Store.Get(ctx context.Context, path string) (rec FileRecord, err error)
 //@   deterministic
+//@   detargs self path
 //@ interface Store.Set(ctx context.Context, path string, src FileRecord) (err error)
 //@   deterministic
+//@   detargs self path src
 
 // ---- the serial fallback transaction ----
 
@@ -83,59 +85,66 @@ package keyvalue
 //@   pure
 //@   nopanic
 
+//@ spec storeGetRec(store Store, path string) := ret("keyvalue.(Store).Get", 0, store, nil, path)
+//@ spec storeGetErr(store Store, path string) := ret("keyvalue.(Store).Get", 1, store, nil, path)
+//@ spec storeGetW(store Store, path string) := worldAfter("keyvalue.(Store).Get", store, nil, path)
+//@ spec storeSetErr(store Store, path string, src FileRecord) := ret("keyvalue.(Store).Set", 0, store, nil, path, src)
+//@ spec storeSetW(store Store, path string, src FileRecord) := worldAfter("keyvalue.(Store).Set", store, nil, path, src)
+
 //@ spec shErr(u *unsafeSerialTransaction, handler OpHandler, w int, op OpID, rec FileRecord, e error) := retW("keyvalue.(OpHandler).Handle", 0, w, handler, u, mkstruct(OpResult, op, rec, e))
 //@ spec sameResultsBelow(u *unsafeSerialTransaction, n OpID) := forall(k, int, implies(0 <= k && k < n, u.results[k] == old(u.results[k])))
 
 //@ func (u *unsafeSerialTransaction) GetHandler(path string, handler OpHandler) (id OpID)
 //@   props C18 C14
 //@   requires serInv(u) && handler != nil && u.nextOp < 1<<40
-//@   modifies u.nextOp, mapOf(u.results), cancelled(u.ctx)
+//@   modifies u.nextOp, mapOf(u.results), cancelled(u.ctx), world()
 //@   ensures "one-result" id == old(u.nextOp) && u.nextOp == old(u.nextOp) + 1 && u.results[id].Op == id && sameResultsBelow(u, id)
 //@   ensures "aborted" implies(old(cancelled(u.ctx)), u.results[id].Record == nil && u.results[id].Err == context.Canceled && world() == old(world()))
-//@   ensures "get" implies(!old(cancelled(u.ctx)), u.results[id].Record == old(ret("keyvalue.(Store).Get", 0, u.store, u.ctx, path)) &&
-//@                   implies(old(ret("keyvalue.(Store).Get", 1, u.store, u.ctx, path)) != nil, u.results[id].Err == old(ret("keyvalue.(Store).Get", 1, u.store, u.ctx, path))) &&
-//@                   implies(old(ret("keyvalue.(Store).Get", 1, u.store, u.ctx, path)) == nil, u.results[id].Err ==
-//@                           old(shErr(u, handler, worldAfter("keyvalue.(Store).Get", u.store, u.ctx, path), u.nextOp, ret("keyvalue.(Store).Get", 0, u.store, u.ctx, path), nil))))
+//@   ensures "get" implies(!old(cancelled(u.ctx)), u.results[id].Record == old(storeGetRec(u.store, path)) &&
+//@                   implies(old(storeGetErr(u.store, path)) != nil, u.results[id].Err == old(storeGetErr(u.store, path))) &&
+//@                   implies(old(storeGetErr(u.store, path)) == nil, u.results[id].Err ==
+//@                           old(shErr(u, handler, storeGetW(u.store, path), u.nextOp, storeGetRec(u.store, path), nil))))
 //@   ensures "inv" serInv(u) && implies(old(cancelled(u.ctx)), cancelled(u.ctx))
+//@   ensures "get-world" implies(!old(cancelled(u.ctx)), world() == old(storeGetW(u.store, path)))
 //@   ensures "noop-handler" implies(isType(handler, OpHandlerFunc) && noopfn(payload(handler)), cancelled(u.ctx) == old(cancelled(u.ctx)) &&
-//@                   implies(!old(cancelled(u.ctx)), u.results[id].Err == old(ret("keyvalue.(Store).Get", 1, u.store, u.ctx, path))))
+//@                   implies(!old(cancelled(u.ctx)), u.results[id].Err == old(storeGetErr(u.store, path))))
 //@   nopanic
 
 //@ func (u *unsafeSerialTransaction) Get(path string) (id OpID)
 //@   props C18 C14
 //@   requires serInv(u) && u.nextOp < 1<<40
-//@   modifies u.nextOp, mapOf(u.results)
+//@   modifies u.nextOp, mapOf(u.results), world()
 //@   ensures "one-result" id == old(u.nextOp) && u.nextOp == old(u.nextOp) + 1 && u.results[id].Op == id && sameResultsBelow(u, id)
 //@   ensures "aborted" implies(cancelled(u.ctx), u.results[id].Record == nil && u.results[id].Err == context.Canceled && world() == old(world()))
-//@   ensures "get" implies(!cancelled(u.ctx), u.results[id].Record == old(ret("keyvalue.(Store).Get", 0, u.store, u.ctx, path)) &&
-//@                   u.results[id].Err == old(ret("keyvalue.(Store).Get", 1, u.store, u.ctx, path)))
+//@   ensures "get" implies(!cancelled(u.ctx), u.results[id].Record == old(storeGetRec(u.store, path)) &&
+//@                   u.results[id].Err == old(storeGetErr(u.store, path)) && world() == old(storeGetW(u.store, path)))
 //@   ensures "inv" serInv(u)
 //@   nopanic
 
 //@ func (u *unsafeSerialTransaction) SetHandler(path string, src FileRecord, contents blob.Blob, handler OpHandler) (id OpID)
 //@   props C18 C14
 //@   requires serInv(u) && handler != nil && u.nextOp < 1<<40
-//@   modifies u.nextOp, mapOf(u.results), cancelled(u.ctx)
+//@   modifies u.nextOp, mapOf(u.results), cancelled(u.ctx), world()
 //@   ensures "one-result" id == old(u.nextOp) && u.nextOp == old(u.nextOp) + 1 && u.results[id].Op == id && sameResultsBelow(u, id)
 //@   ensures "after-abort-no-effect" implies(old(cancelled(u.ctx)), u.results[id].Err == context.Canceled && world() == old(world()))
 //@   ensures "set" implies(!old(cancelled(u.ctx)), u.results[id].Record == nil &&
-//@                   implies(old(ret("keyvalue.(Store).Set", 0, u.store, u.ctx, path, src)) != nil, u.results[id].Err == old(ret("keyvalue.(Store).Set", 0, u.store, u.ctx, path, src))) &&
-//@                   implies(old(ret("keyvalue.(Store).Set", 0, u.store, u.ctx, path, src)) == nil, u.results[id].Err ==
-//@                           old(shErr(u, handler, worldAfter("keyvalue.(Store).Set", u.store, u.ctx, path, src), u.nextOp, nil, nil))))
+//@                   implies(old(storeSetErr(u.store, path, src)) != nil, u.results[id].Err == old(storeSetErr(u.store, path, src))) &&
+//@                   implies(old(storeSetErr(u.store, path, src)) == nil, u.results[id].Err ==
+//@                           old(shErr(u, handler, storeSetW(u.store, path, src), u.nextOp, nil, nil))))
 //@   ensures "inv" serInv(u) && implies(old(cancelled(u.ctx)), cancelled(u.ctx))
 //@   ensures "noop-handler" implies(isType(handler, OpHandlerFunc) && noopfn(payload(handler)), cancelled(u.ctx) == old(cancelled(u.ctx)) &&
-//@                   implies(!old(cancelled(u.ctx)), u.results[id].Err == old(ret("keyvalue.(Store).Set", 0, u.store, u.ctx, path, src)) &&
-//@                           world() == old(worldAfter("keyvalue.(Store).Set", u.store, u.ctx, path, src))))
+//@                   implies(!old(cancelled(u.ctx)), u.results[id].Err == old(storeSetErr(u.store, path, src)) &&
+//@                           world() == old(storeSetW(u.store, path, src))))
 //@   nopanic
 
 //@ func (u *unsafeSerialTransaction) Set(path string, src FileRecord, contents blob.Blob) (id OpID)
 //@   props C18 C14
 //@   requires serInv(u) && u.nextOp < 1<<40
-//@   modifies u.nextOp, mapOf(u.results)
+//@   modifies u.nextOp, mapOf(u.results), world()
 //@   ensures "one-result" id == old(u.nextOp) && u.nextOp == old(u.nextOp) + 1 && u.results[id].Op == id && sameResultsBelow(u, id)
 //@   ensures "after-abort-no-effect" implies(cancelled(u.ctx), u.results[id].Err == context.Canceled && world() == old(world()))
-//@   ensures "set" implies(!cancelled(u.ctx), u.results[id].Record == nil && u.results[id].Err == old(ret("keyvalue.(Store).Set", 0, u.store, u.ctx, path, src)) &&
-//@                   world() == old(worldAfter("keyvalue.(Store).Set", u.store, u.ctx, path, src)))
+//@   ensures "set" implies(!cancelled(u.ctx), u.results[id].Record == nil && u.results[id].Err == old(storeSetErr(u.store, path, src)) &&
+//@                   world() == old(storeSetW(u.store, path, src)))
 //@   ensures "inv" serInv(u)
 //@   nopanic
 
@@ -156,19 +165,45 @@ package keyvalue
 //@   ensures "aborted" err == nil && cancelled(u.ctx)
 //@   nopanic
 
+//@ spec memStoreOf(store Store) := store.(*mem.store)
+//@ spec storeUnlocked(store Store) := implies(isType(store, *mem.store), memStoreOf(store) != nil && !held(memStoreOf(store).mu))
+
 //@ func TransactionOrSerial(store Store, options TransactionOptions) (txn Transaction, err error)
 //@   props C18 C14
-//@   requires store != nil
-//@   ensures "native" implies(implements(store, TransactionStore), txn == old(ret("keyvalue.(TransactionStore).Transaction", 0, store, options)) &&
-//@                      err == old(ret("keyvalue.(TransactionStore).Transaction", 1, store, options)))
-//@   ensures "serial" implies(!implements(store, TransactionStore), err == nil && isType(txn, *unsafeSerialTransaction) && fresh(txn.(*unsafeSerialTransaction)) &&
-//@                      serInv(txn.(*unsafeSerialTransaction)) && txn.(*unsafeSerialTransaction).store == store && txn.(*unsafeSerialTransaction).nextOp == 0 &&
+//@   requires store != nil && storeUnlocked(store)
+//@   dispatch TransactionStore *mem.store
+//@   modifies held(memStoreOf(store).mu), world()
+//@   ensures "mem" implies(isType(store, *mem.store), err == nil && isType(txn, *mem.transaction) && fresh(txn.(*mem.transaction)) && mem.txnInv(txn.(*mem.transaction)) &&
+//@                   txn.(*mem.transaction).store == memStoreOf(store) && txn.(*mem.transaction).op == 0 && !txn.(*mem.transaction).released && ref(txn.(*mem.transaction).results) == 0 && fresh(txn.(*mem.transaction).ctx) &&
+//@                   !cancelled(txn.(*mem.transaction).ctx) && held(memStoreOf(store).mu) && world() == old(world()))
+//@   ensures "lock-frame" implies(!isType(store, *mem.store), held(memStoreOf(store).mu) == old(held(memStoreOf(store).mu)))
+//@   ensures "native" implies(implements(store, TransactionStore) && !isType(store, *mem.store), txn == old(ret("keyvalue.(TransactionStore).Transaction", 0, store, options)) &&
+//@                      err == old(ret("keyvalue.(TransactionStore).Transaction", 1, store, options)) &&
+//@                      implies(err == nil, txn != nil && fresh(txn) && !isType(txn, *mem.transaction) && !isType(txn, *unsafeSerialTransaction) && gint("txnCalls", payload(txn)) == 0))
+//@   ensures "serial" implies(!implements(store, TransactionStore), world() == old(world()) && err == nil && isType(txn, *unsafeSerialTransaction) && fresh(txn.(*unsafeSerialTransaction)) &&
+//@                      serInv(txn.(*unsafeSerialTransaction)) && txn.(*unsafeSerialTransaction).store == store && txn.(*unsafeSerialTransaction).nextOp == 0 && fresh(txn.(*unsafeSerialTransaction).results) && fresh(txn.(*unsafeSerialTransaction).ctx) &&
 //@                      !cancelled(txn.(*unsafeSerialTransaction).ctx))
 //@   nopanic
 
 //@ interface TransactionStore.Transaction(options TransactionOptions) (txn Transaction, err error)
 //@   deterministic
-//@   ensures "result" implies(err == nil, txn != nil)
+//@   ensures "result" implies(err == nil, txn != nil && fresh(txn) && !isType(txn, *mem.transaction) && !isType(txn, *unsafeSerialTransaction) && gint("txnCalls", payload(txn)) == 0)
+
+// A foreign transaction: one result per call, in call order (assumed).
+//@ interface Transaction.Get(path string) (id OpID)
+//@   deterministic
+//@   modifies gint("txnCalls", payload(self))
+//@   ensures "count" id == old(gint("txnCalls", payload(self))) && gint("txnCalls", payload(self)) == id + 1 && id >= 0
+//@ interface Transaction.Set(path string, src FileRecord, contents blob.Blob) (id OpID)
+//@   deterministic
+//@   modifies gint("txnCalls", payload(self))
+//@   ensures "count" id == old(gint("txnCalls", payload(self))) && gint("txnCalls", payload(self)) == id + 1 && id >= 0
+//@ interface Transaction.Commit(ctx context.Context) (rs []OpResult, err error)
+//@   deterministic
+//@   detargs self
+//@   ensures "results" implies(err == nil, len(rs) == gint("txnCalls", payload(self)))
+//@ interface Transaction.Abort() (err error)
+//@   deterministic
 
 // ---- lazily evaluated record view of a handle (record.go) ----
 
@@ -607,3 +642,38 @@ package keyvalue
 //@   ensures "never-reads" n == 0 && err != nil && isPathError(err) && pathOf(err) == w.file.path
 //@   nopanic
 
+
+//@ func (t *transactionOnly) Transaction(options TransactionOptions) (txn Transaction, err error)
+//@   inline
+//@ func newFSTransactioner(store Store) (t *transactionOnly)
+//@   inline
+
+// ---- the file system (fs.go): three worlds for the store behind fs.store ----
+//   mem:     the in-memory store (ghost map of its records; precise)
+//   serial:  a plain Store through the serial fallback transaction (Store.Get/Set are deterministic black boxes)
+//   foreign: another TransactionStore (opaque transactions, one result per call assumed)
+
+//@ spec fsStore(fs *FS) := fs.store.store
+//@ spec isMem(fs *FS) := isType(fsStore(fs), *mem.store)
+//@ spec isSerial(fs *FS) := !implements(fsStore(fs), TransactionStore)
+//@ spec ms(fs *FS) := memStoreOf(fsStore(fs))
+//@ spec kvHas(fs *FS, p string) := in(p, dom(ms(fs).records))
+//@ spec kvRec(fs *FS, p string) := ms(fs).records[p]
+//@ spec fsInv(fs *FS) := fs != nil && fs.store != nil && fsStore(fs) != nil && storeUnlocked(fsStore(fs))
+//@ spec freshHandle(f *file, fs *FS, path string) := f != nil && fresh(f) && f.fileData != nil && fresh(f.fileData) && f.fileData.path == path && f.fileData.fs == fs &&
+//@        f.offset == 0 && !f.closed && f.fileData.modeOverride == nil && f.fileData.modTimeOverride == 0 &&
+//@        fRec(f).dataDone == 0 && !oncedone(fRec(f).dataOnce) && !oncedone(fRec(f).dirNamesOnce) && !oncedone(fRec(f).modeOnce) && !oncedone(fRec(f).modTimeOnce) && !oncedone(fRec(f).sysOnce)
+
+//@ func (fs *FS) getFile(path string) (f *file, err error)
+//@   props C01 C14 C04 C17
+//@   requires fsInv(fs)
+//@   dispatch Transaction *mem.transaction *unsafeSerialTransaction
+//@   modifies world()
+//@   ensures "gate" implies(!VP(path), f == nil && err == hackpadfs.ErrInvalid && world() == old(world()))
+//@   ensures "mem-hit" implies(VP(path) && isMem(fs) && kvHas(fs, path), err == nil && freshHandle(f, fs, path) && f.flag == 0 && fRec(f).record == kvRec(fs, path))
+//@   ensures "mem-miss" implies(VP(path) && isMem(fs) && !kvHas(fs, path), err == hackpadfs.ErrNotExist)
+//@   ensures "mem-world" implies(isMem(fs), world() == old(world()))
+//@   ensures "serial" implies(VP(path) && isSerial(fs), freshHandle(f, fs, path) && fRec(f).record == old(storeGetRec(fsStore(fs), path)) &&
+//@                      err == old(storeGetErr(fsStore(fs), path)) && world() == old(storeGetW(fsStore(fs), path)))
+//@   ensures "result" implies(err == nil, f != nil)
+//@   nopanic
